@@ -193,6 +193,12 @@ def all_cases(tier, seed):
         for state in states:
             for mode in ('active', 'passive'):
                 cases.append(build_case(fault, state, mode, cat))
+    # the whole catalogue once more with debug logging on (every log call evaluates its lazy message): formatters run on peer data
+    for fault, (data, states, exp) in cat.items():
+        st = 'established' if 'established' in states else states[0]
+        c = build_case(fault, st, 'active', cat)
+        c['loud'] = True
+        cases.append(c)
     # graceful restart configured: API teardown may close silently
     cases.append(build_case('api-teardown-4', 'established', 'active', cat, gr=True))
     cases.append(build_case('hdr-marker', 'established', 'active', cat, gr=True))
@@ -210,8 +216,11 @@ def judge(res: Result, case, rec):
     fault, state, mode = case['fault'], case['state'], case['mode']
     data, states, exp = cat[fault]
     want = exp.get(state, exp.get('*'))
-    cls = f'{fault}:{state}'
-    wit = {'case': {k: case[k] for k in ('fault', 'state', 'mode', 'gr', 'steps', 'config')}, 'notes': rec['notes']}
+    cls = f'{fault}:{state}' + (':debug-log' if case.get('loud') else '')
+    if case.get('loud') and not rec.get('log_evaluated'):
+        res.inconclusive.append(f'{cls}: debug logging case evaluated no log message')
+        return
+    wit = {'case': {k: case.get(k) for k in ('fault', 'state', 'mode', 'gr', 'steps', 'config', 'loud')}, 'notes': rec['notes']}
     marks = [e for e in rec['events'] if e['kind'] == 'mark' and e.get('name') == 'inject']
     if not marks or marks[0].get('session') is None:
         res.inconclusive.append(f'{cls}/{mode}: injection point never reached {rec["notes"]}')
